@@ -108,7 +108,13 @@ def run_creation(ctx, R):
     enginea.CHECKS.setdefault('zero_capacity_guard', chk_zero_capacity_guard)
     enginea.CHECKS.setdefault('mutex_never_locked', chk_mutex_never_locked)
     t0 = time.time()
-    F = Facts(build_creation_facts())
+    ren, moved = {}, {}
+    try:
+        ren = dict(ctx.facts('default').renamed_fns)
+        moved = dict(ctx.facts('default').moved_adts)
+    except Exception:
+        ren, moved = {}, {}
+    F = Facts(build_creation_facts(), fn_renames=ren, moved_adts=moved)
     sinks, sites, _ = load_table()
     A = RtAnalysis(F, ['create'])
     R.floor('A.creation.roots', len(A.roots), 13)
